@@ -327,7 +327,7 @@ func unpackStringBase64(msg []byte, off, end int) (string, int, error) {
 	// Rest of the RR is base64 encoded value, so we don't need an explicit length
 	// to be set. Thus far all RR's that have base64 encoded fields have those as their
 	// last one. What we do need is the end of the RR!
-	if end > len(msg) {
+	if off > end || end > len(msg) {
 		return "", len(msg), &Error{err: "overflow unpacking base64"}
 	}
 	s := toBase64(msg[off:end])
@@ -351,7 +351,7 @@ func unpackStringHex(msg []byte, off, end int) (string, int, error) {
 	// Rest of the RR is hex encoded value, so we don't need an explicit length
 	// to be set. NSEC and TSIG have hex fields with a length field.
 	// What we do need is the end of the RR!
-	if end > len(msg) {
+	if off > end || end > len(msg) {
 		return "", len(msg), &Error{err: "overflow unpacking hex"}
 	}
 
